@@ -1011,16 +1011,24 @@ impl ViCut {
 		for (arg_name, arg_value) in func.args.iter().zip(args.into_iter()) {
 			self.set_var(arg_name.clone(), arg_value)?;
 		}
-		let mut ret_val = None;
+		let mut ret_val = Val::Null;
 		for cmd in &func.body {
 			// Here we can use our existing mutable reference to self
 			// Along with the function cmd and the ctx we have
 			// To maintain context even in nested function calls
-			ret_val = super::exec_cmd(cmd, self, ctx);
-			if ret_val.is_some() { break } // We got a 'return' call, so we break now
+			match super::exec_cmd(cmd, self, ctx) {
+				crate::Flow::Next => {}
+				crate::Flow::Return(val) => {
+					// We got a 'return' call, from whatever depth
+					ret_val = val;
+					break
+				}
+				// A stray 'break' or 'continue' ends the function
+				crate::Flow::Break | crate::Flow::Continue => break,
+			}
 		}
 		self.ascend();
-		Ok(ret_val.unwrap_or(Val::Null))
+		Ok(ret_val)
 	}
 	pub fn eval_ternary_expr(&mut self, cond: &(bool,Box<Expr>), true_case: &Expr, false_case: &Expr, ctx: &mut ExecCtx) -> Result<Val,String> {
 		let cond = self.eval_expr(&cond.1,ctx)?;
